@@ -933,11 +933,11 @@ package mocrelay
 //@   serves C15
 //@   requires c != nil && held(c.mu) == 0
 //@   writes lock(c.mu)
-//@   ensures[C15] held(c.mu) == 0
+//@   ensures held(c.mu) == 0
 
 //@ func EventCache.getEventKey
 //@   serves C04 C05
-//@   uses dval_def
+//@   uses dval_def ckey_def
 //@   requires event != nil
 //@   writes nothing
 //@   ensures[C04] !isEphemeralKind(event.Kind) ==> result == cacheKeyOf(event)
@@ -946,14 +946,14 @@ package mocrelay
 //@   serves C05 C15
 //@   requires c != nil && held(c.mu) >= 1
 //@   writes nothing
-//@   ensures[C05] result == suppressed(c, eventKey, pubkey)
+//@   ensures result == suppressed(c, eventKey, pubkey)
 
 //@ func EventCache.getEventKeyFromKind5Tags
 //@   serves C05
 //@   requires event != nil
 //@   writes nothing
-//@   ensures[C05] forall(i, 0, len(result), refsKey(event, result[i]))
-//@   ensures[C05] forall(j, 0, len(event.Tags), refTag(event.Tags[j]) ==> exists(i, 0, len(result), result[i] == event.Tags[j][1]))
+//@   ensures forall(i, 0, len(result), refsKey(event, result[i]))
+//@   ensures forall(j, 0, len(event.Tags), refTag(event.Tags[j]) ==> exists(i, 0, len(result), result[i] == event.Tags[j][1]))
 //@   loop 1 as n
 //@     invariant forall(i, 0, len(ret), refsKey(event, ret[i]))
 //@     invariant forall(j, 0, n, refTag(event.Tags[j]) ==> exists(i, 0, len(ret), ret[i] == event.Tags[j][1]))
@@ -972,6 +972,7 @@ package mocrelay
 
 //@ func eventCacheEvsIndex.keysFromEvent
 //@   serves C03 C15
+//@   uses evKey_def
 //@   requires event != nil
 //@   writes nothing
 //@   ensures[C03] forall(i, 0, len(result), evKeyOf(event, result[i]))
@@ -984,37 +985,62 @@ package mocrelay
 //@ func eventCacheEvsIndex.Add
 //@   serves C03 C15
 //@   requires c != nil && c.idx != nil && wfEvent(event) && idxLocked(c, 2) && idxMemOK(c)
+//@   requires[C03] idxSep(c) && idxShape(c)
 //@   writes contents(c.idx), eachkey(k, c.idx, contents(c.idx[k]))
 //@   ensures all(k, eventCacheEvsIndexKey, has(c.idx, k) ==> ((old(has(c.idx, k)) && c.idx[k] == old(c.idx[k])) || fresh(c.idx[k])))
 //@   ensures idxMemOK(c)
-//@   loop 1
+//@   ensures[C03] idxSep(c) && idxShape(c)
+//@   ensures[C03] all(key, eventCacheEvsIndexKey, all(ev, unbounded(*Event), inIdx(c, key, ev) == (old(inIdx(c, key, ev)) || (ev == event && evKeyOf(event, key)))))
+//@   loop 1 as n over keys
 //@     lwrites contents(c.idx), eachkey(k, c.idx, contents(c.idx[k]))
 //@     invariant idxMemOK(c)
 //@     invariant all(k, eventCacheEvsIndexKey, has(c.idx, k) ==> ((old(has(c.idx, k)) && c.idx[k] == old(c.idx[k])) || lfresh(c.idx[k])))
+//@     invariant[C03] idxSep(c)
+//@     invariant[C03] idxShape(c)
+//@     invariant[C03] all(key, eventCacheEvsIndexKey, all(ev, unbounded(*Event), inIdx(c, key, ev) == (old(inIdx(c, key, ev)) || (ev == event && exists(j, 0, n, keys[j] == key)))))
 
 //@ func eventCacheEvsIndex.Delete
 //@   serves C03 C15
+//@   opt merge=off
 //@   requires c != nil && c.idx != nil && wfEvent(event) && idxLocked(c, 2) && idxMemOK(c)
+//@   requires[C03] idxSep(c) && idxShape(c)
 //@   writes contents(c.idx), eachkey(k, c.idx, contents(c.idx[k]))
 //@   ensures all(k, eventCacheEvsIndexKey, has(c.idx, k) ==> (old(has(c.idx, k)) && c.idx[k] == old(c.idx[k])))
 //@   ensures idxMemOK(c)
-//@   loop 1
+//@   ensures[C03] idxSep(c) && idxShape(c)
+//@   ensures[C03] all(key, eventCacheEvsIndexKey, all(ev, unbounded(*Event), inIdx(c, key, ev) == (old(inIdx(c, key, ev)) && !(ev == event && evKeyOf(event, key)))))
+//@   loop 1 as n over keys
 //@     lwrites contents(c.idx), eachkey(k, c.idx, contents(c.idx[k]))
 //@     invariant idxMemOK(c)
 //@     invariant all(k, eventCacheEvsIndexKey, has(c.idx, k) ==> (old(has(c.idx, k)) && c.idx[k] == old(c.idx[k])))
+//@     invariant[C03] idxSep(c)
+//@     invariant[C03] idxShape(c)
+//@     invariant[C03] all(key, eventCacheEvsIndexKey, !exists(j, 0, n, keys[j] == key) ==> (has(c.idx, key) == old(has(c.idx, key)) && all(ev, unbounded(*Event), has(c.idx[key], ev) == old(has(c.idx[key], ev)))))
+//@     invariant[C03] all(key, eventCacheEvsIndexKey, exists(j, 0, n, keys[j] == key) ==> all(ev, unbounded(*Event), inIdx(c, key, ev) == (old(inIdx(c, key, ev)) && ev != event)))
 
 //@ func EventCache.delete
-//@   serves C04 C05 C15
+//@   serves C03 C04 C05 C15
+//@   uses ckey_def
 //@   requires held(c.mu) == 2 && cacheWF(c)
-//@   requires regCore(c)
-//@   ensures[C05] regCore(c)
+//@   requires[C05] regCore(c)
+//@   requires[C03] idxSep(c.evsIndex)
+//@   requires[C03] idxShape(c.evsIndex)
+//@   requires[C03] idxSound(c)
+//@   requires[C03] idxComplete(c)
+//@   ensures[C03] idxSep(c.evsIndex)
+//@   ensures[C03] idxShape(c.evsIndex)
+//@   ensures[C03] idxSound(c)
+//@   ensures[C03] idxComplete(c)
+//@   ensures[C05] regOK(c)
+//@   ensures[C05] regSep(c)
+//@   ensures[C05] regCompleteExcept(c, nil)
 //@   writes contents(c.evs), contents(c.deleted), eachkey(k, c.deleted, contents(c.deleted[k])), contents(c.evsIndex.idx), eachkey(k, c.evsIndex.idx, contents(c.evsIndex.idx[k])), ghost(tmdom, c.evsCreatedAt), ghost(tmval, c.evsCreatedAt), ghost(tmsize, c.evsCreatedAt)
-//@   ensures[C05] deleted == (old(has(c.evs, delEvKey.EventKey)) && old(c.evs[delEvKey.EventKey]).Pubkey == delEvKey.Pubkey)
+//@   ensures[C04,C05] deleted == (old(has(c.evs, delEvKey.EventKey)) && old(c.evs[delEvKey.EventKey]).Pubkey == delEvKey.Pubkey)
 //@   ensures[C04] all(k, string, k != delEvKey.EventKey ==> (has(c.evs, k) == old(has(c.evs, k)) && c.evs[k] == old(c.evs[k])))
 //@   ensures[C04] deleted ==> (!has(c.evs, delEvKey.EventKey) && len(c.evs) == old(len(c.evs)) - 1)
 //@   ensures[C04] !deleted ==> (has(c.evs, delEvKey.EventKey) == old(has(c.evs, delEvKey.EventKey)) && c.evs[delEvKey.EventKey] == old(c.evs[delEvKey.EventKey]) && len(c.evs) == old(len(c.evs)))
 //@   ensures[C04] cacheWF(c)
-//@   ensures[C05] all(k, eventCacheDeletedEventKey, has(c.deleted, k) ==> (old(has(c.deleted, k)) && c.deleted[k] == old(c.deleted[k])))
+//@   ensures all(k, eventCacheDeletedEventKey, has(c.deleted, k) ==> (old(has(c.deleted, k)) && c.deleted[k] == old(c.deleted[k])))
 //@   ensures all(k, eventCacheEvsIndexKey, has(c.evsIndex.idx, k) ==> (old(has(c.evsIndex.idx, k)) && c.evsIndex.idx[k] == old(c.evsIndex.idx[k])))
 //@   loop 1 as n
 //@     lwrites contents(c.deleted), eachkey(k, c.deleted, contents(c.deleted[k]))
@@ -1023,27 +1049,43 @@ package mocrelay
 //@     invariant[C05] all(k, eventCacheDeletedEventKey, all(id, string, (has(c.deleted, k) && has(c.deleted[k], id)) == (old(has(c.deleted, k)) && old(has(c.deleted[k], id)) && !(id == cand.ID && k.Pubkey == cand.Pubkey && exists(j, 0, n, keys[j] == k.EventKey)))))
 
 //@ func EventCache.add
-//@   serves C04 C15
-//@   uses id_determines_address
+//@   serves C03 C04 C05 C15
+//@   uses id_determines_address ckey_def
 //@   opt merge=off
 //@   requires held(c.mu) == 2 && cacheWF(c) && wfEvent(event) && !isEphemeralKind(event.Kind) && eventKey == cacheKeyOf(event)
-//@   requires regCore(c)
-//@   ensures[C05] regOK(c) && regSep(c) && regCompleteExcept(c, event)
+//@   requires[C05] regCore(c)
+//@   requires[C03] idxSep(c.evsIndex)
+//@   requires[C03] idxShape(c.evsIndex)
+//@   requires[C03] idxSound(c)
+//@   requires[C03] idxComplete(c)
+//@   ensures[C03] idxSep(c.evsIndex)
+//@   ensures[C03] idxShape(c.evsIndex)
+//@   ensures[C03] all(key, eventCacheEvsIndexKey, all(ev, unbounded(*Event), (inIdx(c.evsIndex, key, ev) && ev != event) ==> (ev != nil && retained(c, ev) && evKeyOf(ev, key))))
+//@   ensures[C03] all(key, eventCacheEvsIndexKey, inIdx(c.evsIndex, key, event) ==> (retained(c, event) && evKeyOf(event, key)))
+//@   ensures[C03] idxSound(c)
+//@   ensures[C03] idxComplete(c)
+//@   ensures[C05] regOK(c)
+//@   ensures[C05] regSep(c)
+//@   ensures[C05] regCompleteExcept(c, event)
 //@   ensures[C05] !added ==> regCore(c)
+//@   requires[C05] noneSuppressed(c) && !suppressed(c, eventKey, event.Pubkey)
+//@   ensures[C05] noneSuppressed(c)
 //@   writes contents(c.evs), contents(c.deleted), eachkey(k, c.deleted, contents(c.deleted[k])), contents(c.evsIndex.idx), eachkey(k, c.evsIndex.idx, contents(c.evsIndex.idx[k])), ghost(tmdom, c.evsCreatedAt), ghost(tmval, c.evsCreatedAt), ghost(tmsize, c.evsCreatedAt)
 //@   ensures[C04] added == !(old(has(c.evs, eventKey)) && old(c.evs[eventKey]).CreatedAt >= event.CreatedAt)
 //@   ensures[C04] added ==> (has(c.evs, eventKey) && c.evs[eventKey] == event && len(c.evs) == old(len(c.evs)) + ite(old(has(c.evs, eventKey)), 0, 1))
 //@   ensures[C04] !added ==> (has(c.evs, eventKey) && c.evs[eventKey] == old(c.evs[eventKey]) && len(c.evs) == old(len(c.evs)))
 //@   ensures[C04] all(k, string, k != eventKey ==> (has(c.evs, k) == old(has(c.evs, k)) && c.evs[k] == old(c.evs[k])))
 //@   ensures[C04] cacheWF(c)
-//@   ensures[C05] all(k, eventCacheDeletedEventKey, has(c.deleted, k) ==> (old(has(c.deleted, k)) && c.deleted[k] == old(c.deleted[k])))
+//@   ensures all(k, eventCacheDeletedEventKey, has(c.deleted, k) ==> (old(has(c.deleted, k)) && c.deleted[k] == old(c.deleted[k])))
 //@   ensures all(k, eventCacheEvsIndexKey, has(c.evsIndex.idx, k) ==> ((old(has(c.evsIndex.idx, k)) && c.evsIndex.idx[k] == old(c.evsIndex.idx[k])) || fresh(c.evsIndex.idx[k])))
 
 //@ func EventCache.addKind5
-//@   serves C05 C15
+//@   serves C03 C05 C15
+//@   uses ckey_def
 //@   requires held(c.mu) == 2 && cacheShape(c) && event != nil
-//@   requires event.Kind == 5 && has(c.evs, event.ID) && c.evs[event.ID] == event && regOK(c) && regSep(c) && regCompleteExcept(c, event)
+//@   requires[C05] event.Kind == 5 && has(c.evs, event.ID) && c.evs[event.ID] == event && regOK(c) && regSep(c) && regCompleteExcept(c, event)
 //@   ensures[C05] regCore(c)
+//@   ensures[C05] all(k, string, all(p, string, (suppressed(c, k, p) && !old(suppressed(c, k, p))) ==> (p == event.Pubkey && refsKey(event, k))))
 //@   writes contents(c.deleted), eachkey(k, c.deleted, contents(c.deleted[k]))
 //@   ensures all(k, eventCacheDeletedEventKey, has(c.deleted, k) ==> ((old(has(c.deleted, k)) && c.deleted[k] == old(c.deleted[k])) || fresh(c.deleted[k])))
 //@   loop 1 as n
@@ -1051,27 +1093,44 @@ package mocrelay
 //@     invariant all(k, eventCacheDeletedEventKey, has(c.deleted, k) ==> ((old(has(c.deleted, k)) && c.deleted[k] == old(c.deleted[k])) || lfresh(c.deleted[k])))
 //@     invariant[C05] regSep(c)
 //@     invariant[C05] regCompleteExcept(c, event)
+//@     invariant[C05] all(k, string, all(p, string, (suppressed(c, k, p) && !old(suppressed(c, k, p))) ==> (p == event.Pubkey && refsKey(event, k))))
 //@     invariant[C05] all(k, eventCacheDeletedEventKey, has(c.deleted, k) ==> c.deleted[k] != nil)
 //@     invariant[C05] all(k, eventCacheDeletedEventKey, has(c.deleted, k) ==> any(id, string, has(c.deleted[k], id)))
 //@     invariant[C05] all(k, eventCacheDeletedEventKey, all(id, string, (has(c.deleted, k) && has(c.deleted[k], id)) ==> regEntryOK(c, k, id)))
 //@     invariant[C05] forall(j, 0, n, has(c.deleted, delKey(keys[j], event.Pubkey)) && has(c.deleted[delKey(keys[j], event.Pubkey)], event.ID))
 
 //@ func EventCache.deleteByKind5
-//@   serves C04 C05 C15
+//@   serves C03 C04 C05 C15
+//@   uses ckey_def
 //@   requires held(c.mu) == 2 && cacheWF(c) && event != nil
-//@   requires regCore(c)
+//@   requires[C05] regCore(c)
+//@   requires[C05] onlyTargetsSuppressed(c, event)
+//@   ensures[C05] noneSuppressed(c)
+//@   requires[C03] idxSep(c.evsIndex)
+//@   requires[C03] idxShape(c.evsIndex)
+//@   requires[C03] idxSound(c)
+//@   requires[C03] idxComplete(c)
+//@   ensures[C03] idxSep(c.evsIndex)
+//@   ensures[C03] idxShape(c.evsIndex)
+//@   ensures[C03] idxSound(c)
+//@   ensures[C03] idxComplete(c)
 //@   ensures[C05] regCore(c)
 //@   writes contents(c.evs), contents(c.deleted), eachkey(k, c.deleted, contents(c.deleted[k])), contents(c.evsIndex.idx), eachkey(k, c.evsIndex.idx, contents(c.evsIndex.idx[k])), ghost(tmdom, c.evsCreatedAt), ghost(tmval, c.evsCreatedAt), ghost(tmsize, c.evsCreatedAt)
 //@   ensures[C04] cacheWF(c) && len(c.evs) <= old(len(c.evs))
-//@   ensures[C05] all(k, string, has(c.evs, k) ==> (old(has(c.evs, k)) && c.evs[k] == old(c.evs[k])))
-//@   ensures[C05] all(k, string, (old(has(c.evs, k)) && !has(c.evs, k)) ==> (refsKey(event, k) && old(c.evs[k]).Pubkey == event.Pubkey))
-//@   ensures[C05] all(k, string, (refsKey(event, k) && old(has(c.evs, k)) && old(c.evs[k]).Pubkey == event.Pubkey) ==> !has(c.evs, k))
+//@   ensures[C04,C05] all(k, string, has(c.evs, k) ==> (old(has(c.evs, k)) && c.evs[k] == old(c.evs[k])))
+//@   ensures[C04,C05] all(k, string, (old(has(c.evs, k)) && !has(c.evs, k)) ==> (refsKey(event, k) && old(c.evs[k]).Pubkey == event.Pubkey))
+//@   ensures[C04,C05] all(k, string, (refsKey(event, k) && old(has(c.evs, k)) && old(c.evs[k]).Pubkey == event.Pubkey) ==> !has(c.evs, k))
 //@   ensures all(k, eventCacheDeletedEventKey, has(c.deleted, k) ==> (old(has(c.deleted, k)) && c.deleted[k] == old(c.deleted[k])))
 //@   ensures all(k, eventCacheEvsIndexKey, has(c.evsIndex.idx, k) ==> (old(has(c.evsIndex.idx, k)) && c.evsIndex.idx[k] == old(c.evsIndex.idx[k])))
 //@   loop 1 as n
 //@     lwrites contents(c.evs), contents(c.deleted), eachkey(k, c.deleted, contents(c.deleted[k])), contents(c.evsIndex.idx), eachkey(k, c.evsIndex.idx, contents(c.evsIndex.idx[k])), ghost(tmdom, c.evsCreatedAt), ghost(tmval, c.evsCreatedAt), ghost(tmsize, c.evsCreatedAt)
 //@     invariant cacheWF(c) && len(c.evs) <= old(len(c.evs))
 //@     invariant[C05] regCore(c)
+//@     invariant[C05] all(k, string, (has(c.evs, k) && suppressed(c, k, c.evs[k].Pubkey)) ==> (c.evs[k].Pubkey == event.Pubkey && refsKey(event, k) && !exists(j, 0, n, keys[j] == k)))
+//@     invariant[C03] idxSep(c.evsIndex)
+//@     invariant[C03] idxShape(c.evsIndex)
+//@     invariant[C03] idxSound(c)
+//@     invariant[C03] idxComplete(c)
 //@     invariant all(k, string, has(c.evs, k) ==> (old(has(c.evs, k)) && c.evs[k] == old(c.evs[k])))
 //@     invariant all(k, string, (old(has(c.evs, k)) && !has(c.evs, k)) ==> (refsKey(event, k) && old(c.evs[k]).Pubkey == event.Pubkey))
 //@     invariant all(k, string, (exists(j, 0, n, keys[j] == k) && old(has(c.evs, k)) && old(c.evs[k]).Pubkey == event.Pubkey) ==> !has(c.evs, k))
@@ -1079,11 +1138,12 @@ package mocrelay
 //@     invariant all(k, eventCacheEvsIndexKey, has(c.evsIndex.idx, k) ==> (old(has(c.evsIndex.idx, k)) && c.evsIndex.idx[k] == old(c.evsIndex.idx[k])))
 
 //@ func EventCache.Add
-//@   serves C04 C05 C15 C16
-//@   uses id_determines_address key_determines_author
+//@   serves C03 C04 C05 C15
+//@   uses id_determines_address key_determines_author ckey_def
+//@   opt merge=off
 //@   requires c != nil && wfEvent(event) && held(c.mu) == 0
-//@   writes contents(c.evs), contents(c.deleted), eachkey(k, c.deleted, contents(c.deleted[k])), contents(c.evsIndex.idx), eachkey(k, c.evsIndex.idx, contents(c.evsIndex.idx[k])), ghost(tmdom, c.evsCreatedAt), ghost(tmval, c.evsCreatedAt), ghost(tmsize, c.evsCreatedAt), ghost(lastadd, c), ghost(addlog, c), lock(c.mu)
-//@   ensures[C15] held(c.mu) == 0
+//@   writes contents(c.evs), contents(c.deleted), anymap(string, bool), contents(c.evsIndex.idx), anymap(*Event, bool), ghost(tmdom, c.evsCreatedAt), ghost(tmval, c.evsCreatedAt), ghost(tmsize, c.evsCreatedAt), ghost(lastadd, c), ghost(addlog, c), lock(c.mu)
+//@   ensures held(c.mu) == 0
 //@   ensures[C04] isEphemeralKind(event.Kind) ==> (added && all(k, string, has(c.evs, k) == old(has(c.evs, k)) && c.evs[k] == old(c.evs[k])))
 //@   ensures[C04] !isEphemeralKind(event.Kind) ==> (cacheWF(c) && len(c.evs) <= c.Cap)
 //@   ensures[C04] !isEphemeralKind(event.Kind) ==> added == !(old(suppressed(c, cacheKeyOf(event), event.Pubkey)) || (old(has(c.evs, cacheKeyOf(event))) && old(c.evs[cacheKeyOf(event)]).CreatedAt >= event.CreatedAt))
@@ -1150,7 +1210,7 @@ package mocrelay
 //@   opt overflow=assume
 //@   requires c != nil && held(c.mu) == 0 && forall(i, 0, len(filters), filters[i] != nil)
 //@   writes lock(c.mu)
-//@   ensures[C15] held(c.mu) == 0 && (result == nil || fresh(result))
+//@   ensures held(c.mu) == 0 && (result == nil || fresh(result))
 //@   loop 1
 //@     lwrites ghost(tmdom, ret), ghost(tmval, ret), ghost(tmsize, ret)
 //@     invariant ret != nil && fresh(ret)
@@ -1162,10 +1222,10 @@ package mocrelay
 //@     invariant ret != nil && fresh(ret) && it.tree == c.evsCreatedAt && m != nil && fresh(m)
 
 //@ func EventCache.Find
-//@   serves C03 C15 C16
+//@   serves C03 C15
 //@   requires c != nil && held(c.mu) == 0 && forall(i, 0, len(filters), filters[i] != nil)
 //@   writes ghost(lastfind, c), ghost(lastfindfilters, c), lock(c.mu)
-//@   ensures[C15] held(c.mu) == 0
+//@   ensures held(c.mu) == 0
 //@   promises result == g(lastfind, c) && g(lastfindfilters, c) == filters
 //@   loop 1
 //@     lwrites it.node
